@@ -291,6 +291,14 @@ func (c *Ctx) Print(asserts []*Term, vals []*Term, opts PrintOpts) *Script {
 	for _, v := range vals {
 		walk(v)
 	}
+	for _, st := range opts.Steps {
+		for _, a := range st.Perm {
+			walk(a)
+		}
+		if st.Check != nil {
+			walk(st.Check)
+		}
+	}
 	// decide which nodes get names
 	named := map[int]string{}
 	depth := map[int]int{}
@@ -506,6 +514,18 @@ func (c *Ctx) Print(asserts []*Term, vals []*Term, opts PrintOpts) *Script {
 	for _, a := range asserts {
 		fmt.Fprintf(&sb, "(assert %s)\n", pr(a, false))
 	}
+	if len(opts.Steps) > 0 {
+		// incremental batch: permanent facts accumulate, each check is pushed and popped
+		for _, st := range opts.Steps {
+			for _, a := range st.Perm {
+				fmt.Fprintf(&sb, "(assert %s)\n", pr(a, false))
+			}
+			if st.Check != nil {
+				fmt.Fprintf(&sb, "(push 1)\n(assert %s)\n(check-sat)\n(pop 1)\n", pr(st.Check, false))
+			}
+		}
+		return &Script{Logic: logic, Nodes: len(order), HasQ: hasQ, Text: sb.String()}
+	}
 	sb.WriteString("(check-sat)\n")
 	sc := &Script{Logic: logic, Nodes: len(order), HasQ: hasQ}
 	if len(vals) > 0 && opts.Models {
@@ -521,7 +541,14 @@ func (c *Ctx) Print(asserts []*Term, vals []*Term, opts PrintOpts) *Script {
 	return sc
 }
 
+// Step of an incremental batch script.
+type Step struct {
+	Perm  []*Term // asserted permanently before the check
+	Check *Term   // asserted inside push/pop followed by check-sat (nil: none)
+}
+
 type PrintOpts struct {
+	Steps  []Step
 	Models bool
 	Logic  string
 }
